@@ -71,5 +71,7 @@ func VerifySig(pub []byte, msg []byte, sig []byte) (bool, error) {
 	if err := s.Deserialize(sig); err != nil {
 		return false, fmt.Errorf("bad signature: %w", err)
 	}
-	return s.VerifyByte(&pk, msg), nil
+	// A private copy: cgo refuses a pointer into a Go object that itself holds Go pointers.
+	m := append([]byte(nil), msg...)
+	return s.VerifyByte(&pk, m), nil
 }
